@@ -9,6 +9,7 @@ import (
 	"os"
 	"os/exec"
 	"path/filepath"
+	"regexp"
 	"sort"
 	"strings"
 	"sync"
@@ -297,6 +298,8 @@ func c13DirWorker(c *mc.Ctx, depth int) {
 // codegen.Generate (packages.Load included); the second generation of each
 // pair must produce exactly what a fresh process produces.
 
+var c13TmpRe = regexp.MustCompile(`loxmc\.c13c\.[0-9]+`)
+
 func c13InProcess(c *mc.Ctx) {
 	tmpRoot, err := os.MkdirTemp(pipe.ScratchRoot(), "loxmc.c13c.")
 	if err != nil {
@@ -355,7 +358,13 @@ func c13InProcess(c *mc.Ctx) {
 			case p2 != "":
 				bad = "the generator panicked: " + firstLine(p2)
 			case !ok2:
-				bad = "the generation failed: " + firstLine(diag2)
+				d := strings.ReplaceAll(diag2, tmpRoot, "<tmp>")
+				if wd, err := os.Getwd(); err == nil {
+					if rel, err := filepath.Rel(wd, tmpRoot); err == nil {
+						d = strings.ReplaceAll(d, rel, "<tmp>")
+					}
+				}
+				bad = "the generation failed: " + firstLine(c13TmpRe.ReplaceAllString(d, "loxmc.c13c.N"))
 			default:
 				got := read(d2)
 				for _, f := range c13Gen {
